@@ -45,6 +45,8 @@ RULES = {
                  "(ghost annotation; EXPR verbatim) because Verus does not infer closure postconditions",
     "R-block": "a contiguous statement range of a function (named by two regexes) is lifted verbatim into a "
                "hand-written wrapper fn whose parameters are the variables it reads; flagged weaker than function extraction",
+    "R-auto-helper": "a function called by contracted code but not listed in the unit is pulled in verbatim; a single "
+                     "side-effect-free expression body gets `ensures r == <expr>` (R-auto-ensures), anything else no contract",
     "R-self": "`Self::` in inherent-emitted trait methods left as is",
 }
 
@@ -413,6 +415,10 @@ def splice_fn(text, spec):
         im = re.compile(r"\bin\b").search(msk, body + 1 + hdr[n].end())
         edits.append((im.end(), im.end(), " %s:" % nm))
     for k, rx, txt, where in spec.get("ats", []):
+        if k == 0:
+            # `at 0 //`: ghost code at the very start of the body (no dependence on code text)
+            edits.append((body + 1, body + 1, "\n" + txt.rstrip() + "\n"))
+            continue
         hits = [m for m in re.finditer(rx, msk[body + 1:end])]
         if len(hits) < k:
             raise ExtractError("lost anchor: /%s/ #%d not found in function body" % (rx, k))
@@ -464,6 +470,35 @@ def rewrite(text, kind, nopub=False):
     return text, applied
 
 
+def auto_helper(repo, relfile, path, hname, nopub):
+    """A function the contracted code calls but the unit does not list (e.g. a helper introduced by a
+    refactor) is pulled in mechanically.  If its body is a single side-effect-free expression
+    (operators, literals, parameters, field reads) it gets the strongest postcondition
+    `ensures r == <that expression>`; otherwise it comes without a contract."""
+    m = re.match(r"^(impl|trait)\s+(.*)::(\w+)$", path.strip())
+    hpath = "%s %s::%s" % (m.group(1), m.group(2), hname) if m else hname
+    try:
+        _, raw = locate(repo, relfile, hpath)
+    except ExtractError:
+        _, raw = locate(repo, relfile, hname)
+    txt, rules = rewrite(raw, "fn", nopub)
+    body, ret = fn_parts(txt)
+    msk = mask(txt)
+    end = match_close(msk, body)
+    inner = txt[body + 1:end].strip()
+    pure = False
+    if ret is not None and ";" not in mask(inner) and not re.search(r"\b\w+\s*\(|\bif\b|\bmatch\b|\bloop\b|\bwhile\b|\bfor\b|\bunsafe\b|!\s*\(", mask(inner).replace("(", " (").replace("  (", " (")) :
+        pure = True
+    if ret is not None and ";" not in mask(inner) and not re.search(r"[A-Za-z_]\w*\s*\(", mask(inner)) and not re.search(r"\b(if|match|loop|while|for|unsafe)\b", mask(inner)):
+        pure = True
+        txt = splice_fn(txt, dict(ret="vx_r", sig="        ensures vx_r == (%s)," % inner, loops={}, ats=[], rename=None, closures=[], iters={}))
+        rules.add("R-auto-ensures")
+    else:
+        pure = False
+    rules.add("R-auto-helper")
+    return txt, rules, pure
+
+
 # ---------------------------------------------------------------- template
 class Unit:
     def __init__(self):
@@ -475,7 +510,8 @@ class Unit:
         self.assumptions = []
 
 
-def build_unit(template_path, repo, canary=False):
+def build_unit(template_path, repo, canary=False, helpers=None):
+    helpers = helpers or {}
     lines = open(template_path).read().split("\n")
     u = Unit()
     out = []
@@ -663,6 +699,13 @@ def build_unit(template_path, repo, canary=False):
             u.items.append(dict(kind="fn", file=relfile, path=path, name=rename or name, props=props,
                                 sha_before=sha(raw), sha_after=sha(txt), rules=sorted(rules),
                                 line_lo=lo, line_hi=cur_line() - 1, contracted=True))
+            for hname in helpers.get(len([x for x in u.items if x["kind"] == "fn" and not x.get("canary") and not x.get("auto")]) - 1, []):
+                htxt, hrules, pure = auto_helper(repo, relfile, path, hname, nopub)
+                lo = cur_line()
+                out.append(htxt)
+                u.items.append(dict(kind="fn", file=relfile, path="(auto) " + hname, name=hname, props=props,
+                                    sha_before=sha(htxt), sha_after=sha(htxt), rules=sorted(hrules),
+                                    line_lo=lo, line_hi=cur_line() - 1, contracted=False, auto=True, pure=pure))
             if ctxt is not None:
                 lo = cur_line()
                 out.append(ctxt)
